@@ -94,11 +94,16 @@ fam('c06_semilegal_validator', 'C06', 'c06::semilegal_validator_exact', 's12', 6
     groups=GROUPS + [FOREIGN], quick='all', props=['C06', 'C19'])
 GENS = [('all', 'G_ALL'), ('capture', 'G_CAPTURE'), ('simple', 'G_SIMPLE'), ('simple_no_promote', 'G_SIMPLE_NO_PROMOTE'),
         ('simple_promote', 'G_SIMPLE_PROMOTE')]
+GEN11 = ' + GEN(1): mover has at most one man of each non-king kind (opponent arbitrary); '
+GEN20 = ' + GEN(2 pawns, 0 pieces): mover has king and at most two pawns (opponent arbitrary); '
 for gk, gc in GENS:
     for sk, sc, sd in SIDES:
-        reg('c06_semilegal_gen_%s_%s' % (gk, sk), 'C06', T, 7200, 16, FULL + ' + GEN(1): mover has at most one man of each non-king kind '
-            '(opponent arbitrary); ' + sd, 'c06::semilegal_gen_exact::<_, %s, %s, 1>' % (sc, gc), 's12', 65, gen_k=1,
-            bounds='GEN(1); generator loops unwound per loop (unwindset derived from cbmc --show-loops)', props=['C06', 'C19'])
+        reg('c06_semilegal_gen_%s_%s' % (gk, sk), 'C06', T, 7200, 16, FULL + GEN11 + sd, 'c06::semilegal_gen_exact::<_, %s, %s, 1, 1>' % (sc, gc), 's12', 65, gen_k=1,
+            bounds='GEN(1); generator loops unwound per loop (unwindset derived from cbmc --show-loops)', props=['C06', 'C19', 'C01'])
+for gk, gc in [('all', 'G_ALL')]:
+    for sk, sc, sd in SIDES:
+        reg('c06_semilegal_gen_pawns_%s_%s' % (gk, sk), 'C06', QT, 3600, 12, FULL + GEN20 + sd, 'c06::semilegal_gen_exact::<_, %s, %s, 2, 0>' % (sc, gc), 's12', 65, gen_k=2,
+            bounds='GEN(2 pawns, 0 pieces): pawn, en-passant, king and castling generation only', props=['C06', 'C19', 'C01', 'C18'])
 
 # ---------------------------------------------------------------- C01
 fam('c01_prefiltered', 'C01', 'c01::prefiltered_legal_exact', 's12', 65, 3600, 14, 'all semilegal moves of the group', props=['C01', 'C19'])
@@ -108,7 +113,7 @@ fam('c01_try_unchecked', 'C01', 'c01::try_unchecked_exact', 's12', 65, 3600, 12,
 for gk, gc in GENS:
     for sk, sc, sd in SIDES:
         reg('c01_legal_gen_list_%s_%s' % (gk, sk), 'C01', T, 10800, 24, FULL + ' + GEN(1); real legal::gen_%s (ArrayVec, retain) with the legality '
-            'filter abstracted (S6); %s' % (gk, sd), 'c01::legal_gen_list::<_, %s, %s, 1>' % (sc, gc), 's126', 65, gen_k=1,
+            'filter abstracted (S6); %s' % (gk, sd), 'c01::legal_gen_list::<_, %s, %s, 1, 1>' % (sc, gc), 's126', 65, gen_k=1,
             bounds='GEN(1); composition with c01_prefiltered (filter = rules) is a one-line argument, stated in DESIGN.md C01')
 
 # ---------------------------------------------------------------- C03 / C04 / C05
@@ -127,12 +132,14 @@ fam_side('c11_validate_exact', 'C11', 'c11::validate_exact', 's12', 65, 3600, 12
          props=['C11', 'C19', 'C05'])
 
 # ---------------------------------------------------------------- C07
-fam_side('c07_outcome_classification', 'C07', 'c07::outcome_classification', 's123', 65, 3000, 10, FULL)
+fam_side('c07_outcome_classification', 'C07', 'c07::outcome_classification', 's123', 65, 3000, 10, FULL, props=['C07', 'C14'])
 fam_side('c07_castling_never_only_move', 'C07', 'c07::castling_never_only_move', 's12', 65, 2400, 10, FULL + ' x both castlings')
 
 for sk, sc, sd in SIDES:
     reg('c07_has_legal_moves_wiring_%s' % sk, 'C07', T, 10800, 24, FULL + ' + GEN(1); real has_legal_moves with the legality filter abstracted (S6); ' + sd,
-        'c07::has_legal_moves_wiring::<_, %s, 1>' % sc, 's126', 65, gen_k=1, bounds='GEN(1)', props=['C07', 'C01'])
+        'c07::has_legal_moves_wiring::<_, %s, 1, 1>' % sc, 's126', 65, gen_k=1, bounds='GEN(1)', props=['C07', 'C01'])
+    reg('c07_has_legal_moves_wiring_pawns_%s' % sk, 'C07', QT, 3600, 14, FULL + GEN20 + 'real has_legal_moves with the legality filter abstracted (S6); ' + sd,
+        'c07::has_legal_moves_wiring::<_, %s, 2, 0>' % sc, 's126', 65, gen_k=2, bounds='GEN(2 pawns, 0 pieces)', props=['C07', 'C01'])
 
 # ---------------------------------------------------------------- C10
 fam('c10_uci_struct_roundtrip', 'C10', 'c10::uci_struct_roundtrip', 's12', 65, 2400, 10, 'all semilegal moves of the group', quick='all')
@@ -168,6 +175,9 @@ for gk, gc, gd in GROUPS:
             'c09::san_from_move::<_, %s, %s, %d>' % (sc, gc, k), 's123', 66,
             bounds='' if k == 16 else 'GEN(2): at most 2 own men per kind, so at most one competing candidate', props=['C09'])
 
+reg('c09_san_simple_pawn_refused', 'C09', QT, 900, 8, 'the initial position x every Data::Simple value naming a pawn', 'c09::san_simple_pawn_refused', 's1', 66,
+    props=['C09', 'C02'])
+
 # ---------------------------------------------------------------- C12
 reg('c12_coord_parse', 'C12', QT, 300, 4, 'every UTF-8 string of at most 4 bytes', 'c12::coord_parse', unwind=8, props=['C12', 'C20'])
 reg('c12_coord_roundtrip', 'C12', QT, 600, 6, 'all 64 squares through core::fmt', 'c12::coord_roundtrip', unwind=8, props=['C12', 'C20'])
@@ -177,8 +187,8 @@ reg('c12_castling_parse', 'C12', QT, 600, 6, 'every UTF-8 string of at most 6 by
 reg('c12_castling_roundtrip', 'C12', QT, 900, 8, 'all 16 right sets through core::fmt', 'c12::castling_roundtrip', unwind=8, props=['C12', 'C20'])
 reg('c12_san_parse_total_5', 'C12', QT, 900, 8, 'every UTF-8 string of at most 5 bytes', 'c12::san_parse_total::<_, 5>', 's4', 9, props=['C12', 'C09'])
 reg('c12_san_parse_total_7', 'C12', T, 3600, 12, 'every UTF-8 string of at most 7 bytes', 'c12::san_parse_total::<_, 7>', 's4', 9, props=['C12', 'C09'])
-reg('c12_fen_board_field_16', 'C12', T, 3600, 12, 'FEN family (a): every space-free UTF-8 string of at most 16 bytes as the whole record',
-    'c12::fen_board_field::<_, 16>', unwind=18)
+reg('c12_fen_board_field_18', 'C12', T, 3600, 12, 'FEN family (a): every space-free UTF-8 string of at most 18 bytes as the whole record',
+    'c12::fen_board_field::<_, 18>', unwind=20)
 reg('c12_fen_tail_12', 'C12', T, 3600, 12, 'FEN family (b): board field 4k3/8/8/8/8/8/8/4K3 followed by every UTF-8 string of at most 12 bytes',
     'c12::fen_tail::<_, 12>', 's1', 66)
 
@@ -197,7 +207,7 @@ for st in range(6):
     reg('c13_chain_eq_s%d' % st, 'C13', QT if st == 0 else T, 3600, 14, 'two chains from stated starts, one symbolic push and outcome each',
         'c13::chain_eq::<_, %d>' % st, 's13', 66)
 for st, pre in [(0, 1), (1, 3), (5, 3), (2, 0)]:
-    reg('c17_walker_s%d_p%d' % (st, pre), 'C17', QT if (st, pre) == (0, 1) else T, 3600, 14,
+    reg('c17_walker_s%d_p%d' % (st, pre), 'C17', QT if (st, pre) in ((1, 3), (5, 3)) else T, 3600, 14,
         'stated chain (start %d, prefix %d) extended by one symbolic accepted move; 6 symbolic walker operations' % (st, pre),
         'c13::walker_steps::<_, %d, %d, 6>' % (st, pre), 's13', 66, bounds='chains of at most 9 moves; at most 6 walker operations')
 reg('c14_outcome_filter_table', 'C14', QT, 300, 4, 'all outcomes x 3 filters (exhaustive)', 'c14::outcome_filter_table')
@@ -212,7 +222,7 @@ for hk, hc in [('v', 'MV'), ('h', 'MH')]:
                 'c18::mirror_move::<_, %s, %s, {crate::c18::%s}>' % (sc, gc, hc), 's12', 65)
     for sk, sc, sd in SIDES:
         reg('c18_mirror_outcome_%s_%s' % (hk, sk), 'C18', QT, 5400, 14, FULL + '; ' + sd, 'c18::mirror_outcome_eq::<_, %s, {crate::c18::%s}>' % (sc, hc), 's123', 65)
-        reg('c18_mirror_gen_%s_%s' % (hk, sk), 'C18', T, 10800, 24, FULL + ' + GEN(1); ' + sd, 'c18::mirror_gen::<_, %s, {crate::c18::%s}, 1>' % (sc, hc), 's12', 65, gen_k=1,
+        reg('c18_mirror_gen_%s_%s' % (hk, sk), 'C18', T, 10800, 24, FULL + ' + GEN(1); ' + sd, 'c18::mirror_gen::<_, %s, {crate::c18::%s}, 1, 1>' % (sc, hc), 's12', 65, gen_k=1,
             bounds='GEN(1)')
 
 PROPS = ['C%02d' % i for i in range(1, 21)]
